@@ -58,3 +58,5 @@ def run(check):
     check.run_rule('C20.R12', lambda c: rule_sentinel_identity(c, 'C20.R12', ['support'], '-- bind_callsig disagrees with CPython about a parameter having a default', floor=1))
     from ..rules_support import rule_read_sig_insertion_index
     check.run_rule('C20.R8', lambda c: rule_read_sig_insertion_index(c, 'C20.R8'))
+    from ..rules_support import rule_no_format_on_fstring
+    check.run_rule('C20.R13', lambda c: rule_no_format_on_fstring(c, 'C20.R13'))
